@@ -243,7 +243,10 @@ func c08Alphabet() []e1.Call {
 	upd(bD("$min", bD("n", i(0)), "$max", bD("sub.k", i(0)))) // one changes, one does not
 	upd(bD("$push", bD("arr", i(4))))
 	upd(bD("$push", bD("arr", bD("$each", bson.A{i(7), i(8)}, "$position", i(1), "$slice", i(4)))))
-	upd(bD("$push", bD("newarr", i(1)))) // push on a missing field
+	upd(bD("$push", bD("newarr", i(1))))                                            // push on a missing field
+	upd(bD("$push", bD("arr", bD("$each", bson.A{i(7), i(8)}, "$position", i(1))))) // insertion in the middle, no $slice/$sort
+	upd(bD("$push", bD("arr", bD("$each", bson.A{i(6)}, "$position", i(0)))))       // at the front
+	upd(bD("$push", bD("arr", bD("$each", bson.A{i(5)}, "$position", i(-1)))))      // before the last element
 	upd(bD("$pop", bD("arr", i(1))))
 	upd(bD("$pop", bD("arr", i(-1))))
 	upd(bD("$pull", bD("arr", bD("$gte", i(2)))))
@@ -468,6 +471,72 @@ func init() {
 		}
 		st := e1.BFS(cfg)
 		cases, trunc := c08Retention(c)
+		// retention as the engine applies it at commit time: a database whose change log starts with three aged events,
+		// MinOplogSize 2, MaxOplogSize 1000, MinOplogAge ~0, MaxOplogAge 1 h; after every commit of every sequence of
+		// <= 3 writes the retained log must be what the retention rule leaves of (previous log + new events)
+		var engineRetention, engineTrunc int64
+		{
+			writes := []e1.Call{cInsertOne("d", "c", bD("k", int32(1))), cInsertMany("d", "c", false, bD("k", int32(2)), bD("k", int32(3))), cCreateIndex("d", "e", bD("q", int32(1)), idxOpt{}), cDelete("d", "c", true, bD())}
+			var rec func(path []int)
+			rec = func(path []int) {
+				if len(path) > 0 {
+					w := c09NewWorld(true)
+					for _, ci := range path {
+						prev := c09ReadOplog(w.Engine.Catalog())
+						stores := w.Store.Stores
+						writes[ci].Do(w)
+						cur := c09ReadOplog(w.Engine.Catalog())
+						seen := map[primitive.Timestamp]bool{}
+						for _, e := range prev {
+							seen[e.ts] = true
+						}
+						all := append([]c09Event{}, prev...)
+						for _, e := range cur {
+							if !seen[e.ts] {
+								all = append(all, e)
+							}
+						}
+						engineRetention++
+						want := all
+						if w.Store.Stores > stores { // the commit was dirty: retention ran
+							now := uint32(time.Now().Unix())
+							drop := 0
+							for idx, e := range all {
+								age := int64(now) - int64(e.ts.T)
+								willing := idx < len(all)-2 && age > 0
+								forced := idx < len(all)-1000 || age > 3600
+								if !(willing && forced) {
+									break
+								}
+								drop++
+							}
+							want = all[drop:]
+							if drop > 0 {
+								engineTrunc++
+							}
+						}
+						if len(cur) != len(want) || (len(cur) > 0 && cur[0].ts != want[0].ts) {
+							names := []string{}
+							for _, k := range path {
+								names = append(names, writes[k].Name)
+							}
+							r.Violation("engine-retention", fmt.Sprintf("after %s the change log holds %d events, the retention rule leaves %d of the %d events (3 of them aged)", strings.Join(names, " ; "), len(cur), len(want), len(all)), map[string]interface{}{"part": "engine-retention", "calls": names})
+							break
+						}
+					}
+					w.Close()
+				}
+				if len(path) == 3 {
+					return
+				}
+				for k := range writes {
+					rec(append(append([]int{}, path...), k))
+				}
+			}
+			rec(nil)
+		}
+		r.Set("engine_retention_commits", engineRetention)
+		r.Set("engine_retention_truncating", engineTrunc)
 		r.Set("states", st.States)
 		r.Set("transitions", st.Transitions)
 		r.Set("replay_calls", st.ReplayCalls)
@@ -492,7 +561,7 @@ func init() {
 		r.Set("samples", []interface{}{map[string]interface{}{"shortest_paths": toIface(st.Shortest)}, map[string]interface{}{"longest_paths": toIface(st.Longest)}, map[string]interface{}{"new_states_per_level": st.PerLevel}})
 		r.Set("rule", "E1 BFS with deduplication: every sequence <= max_depth of the alphabet (writes, failing writes, no-op writes, one update per operator on nested/array fields, multi-namespace transaction commit/abort, drops). For every transition: the log after extends the log before byte-for-byte, new events carry strictly increasing unique timestamps, a failed call appends nothing, no event for an unchanged document, replaying the new events (set fullDocument / remove / drop) on the contents before yields the contents after, and every update event's updatedFields/removedFields applied to the previous version yields the new version. Retention: Transaction.Clean on every synthetic log of length <= 5/6 with non-increasing age patterns x minSize x maxSize x minAge x maxAge against the prefix rule.")
 		r.Assume("pairwise replay between any two positions follows from the consecutive-step replay plus the byte-exact prefix property checked at every step", "event ages in the retention grid keep >= 990 s distance from every cut-off; exact-boundary ages are not explored", "events of one multi-namespace drop are compared as a set")
-		if st.States < 100 || updEvents < 100 || trunc < 100 {
+		if st.States < 100 || updEvents < 100 || trunc < 100 || engineTrunc < 10 {
 			r.Broken("vacuity: states=%d update events=%d truncating retention cases=%d", st.States, updEvents, trunc)
 		}
 	})
